@@ -35,6 +35,7 @@ type FaultSpec struct {
 	WriteIdx []int `json:"write_idx,omitempty"` // identity-based: fail every write of the k-th (0-based, mod n) id of the sorted pre-commit write set
 	Attempts int  `json:"attempts,omitempty"` // the plan applies to the first n attempts (default 1)
 	ReadAt   int  `json:"read_at,omitempty"`  // storage walks: the k-th ledger read of this step fails
+	DecodeAt int  `json:"decode_at,omitempty"` // storage walks: the k-th element-decoder call of this step fails
 }
 
 type Step struct {
